@@ -34,14 +34,30 @@ func DefaultAccept(h Header) string {
 	return ActAccept
 }
 
-// Labels splits a canonical (lower-case, fully qualified, no escapes) name.
+// suffixes lists the name and its ancestors (root excluded), splitting at
+// label boundaries only: a dot that is escaped (\. or \046) is part of a label.
 func suffixes(q string) []string {
 	// "a.b.c." -> ["a.b.c.", "b.c.", "c."]
 	var out []string
-	for q != "" && q != "." {
-		out = append(out, q)
-		i := strings.IndexByte(q, '.')
-		q = q[i+1:]
+	start := 0
+	for start < len(q) && q[start:] != "." {
+		out = append(out, q[start:])
+		i := start
+		for i < len(q) {
+			if q[i] == '\\' {
+				if i+3 < len(q) && q[i+1] >= '0' && q[i+1] <= '9' {
+					i += 4
+				} else {
+					i += 2
+				}
+				continue
+			}
+			if q[i] == '.' {
+				break
+			}
+			i++
+		}
+		start = i + 1
 	}
 	return out
 }
